@@ -1102,8 +1102,9 @@ def counted_loops(pr):
         if callee(t) != "core::iter::traits::iterator::Iterator::next":
             continue
         ga = ty_str(t["f"]["a"][0])
-        if not ga.startswith("core::ops::range::Range<"):
+        if not ga.startswith(("core::ops::range::Range<", "core::iter::adapters::rev::Rev<core::ops::range::Range<")):
             continue
+        reversed_ = ga.startswith("core::iter::adapters::rev::Rev<")
         it = vx.operand(t["args"][0], bb)
         it = strip_ref(it)
         rng = None
@@ -1112,6 +1113,8 @@ def counted_loops(pr):
             for d in pr.tr.defs.get(it[2], []):
                 if d[2] == "call" and callee(d[3]).endswith("IntoIterator::into_iter"):
                     r = vx.operand(d[3]["args"][0], d[0])
+                    if r[0] == "call" and r[1] == "core::iter::traits::iterator::Iterator::rev" and reversed_:
+                        r = r[2][0]
                     if r[0] == "agg" and r[1].endswith("Range::Range"):
                         rng = r
                 elif d[2] == "assign":
@@ -1141,7 +1144,7 @@ def counted_loops(pr):
         idx = ("proj", ("call", callee(t), tuple(vx._operand(a, bb) for a in t["args"]), bb,
                         tuple(ty_str(x) for x in t["f"]["a"])), ("@Some", "0"))
         out.append(dict(next_bb=bb, sw_bb=t["to"], some=some_t, none=none_t, lo=rng[2][0], hi=rng[2][1], idx=idx,
-                        dest=t["dest"]["l"]))
+                        dest=t["dest"]["l"], reversed=reversed_))
     return out
 
 
